@@ -327,3 +327,103 @@ def rule_obj_defaults(cx, tier):
     r.analysed = {"provided_result_methods": n}
     r.floor("provided KotoObject methods returning Result", n, 25)
     return r
+
+
+# ---------------------------------------------------------------------------------------------
+# R-DISPATCH-OPERANDS: a metamap function looked up under `@r<op>` runs with the right operand as its instance
+
+def rule_dispatch_operands(cx, tier):
+    r = RuleResult("R-DISPATCH-OPERANDS", "documented operands: a function found under the operator's own metakey is called "
+                                          "with (left, right); a function found under the `@r…` key is called with the right "
+                                          "operand as instance and the left operand as argument")
+    from .common import operand_agg
+    n = 0
+    for fn in cx.F.fns.values():
+        if not fn.qual.startswith(VM + "run_") or fn.kind == "Closure":
+            continue
+        du = cx.du(fn)
+        # parameter locals named lhs / rhs
+        params = {fn.local_name(l): l for l in range(1, fn.argc + 1)}
+        if "lhs" not in params or "rhs" not in params:
+            continue
+
+        def side(op, depth=0):
+            """'lhs' / 'rhs' / None: which register parameter the value comes from (through clones / copies)"""
+            l = op_base(op)
+            for _ in range(12):
+                if l is None:
+                    return None
+                d = du.single_def(l)
+                if d is None:
+                    return None
+                if d[2] == "call":
+                    c = d[3]
+                    if c.short in (VM + "get_register", VM + "clone_register") and len(c.args) > 1:
+                        a = op_base(c.args[1])
+                        if a == params["lhs"] or (a is not None and du.root(a) == ("arg", params["lhs"])):
+                            return "lhs"
+                        if a == params["rhs"] or (a is not None and du.root(a) == ("arg", params["rhs"])):
+                            return "rhs"
+                        return None
+                    if c.is_("Clone::clone", "Deref::deref", "Into::into", "From::from") and c.args:
+                        l = op_base(c.args[0])
+                        continue
+                    return None
+                rv = d[3]
+                if rv[0] == "use":
+                    l = op_base(rv[1])
+                elif rv[0] in ("ref",):
+                    l = rv[2][0]
+                else:
+                    return None
+            return None
+
+        for c in fn.calls():
+            if c.short != VM + "call_overridden_op_2" or len(c.args) < 5:
+                continue
+            # the function value: get_meta_value(m, &key)
+            l = op_base(c.args[4])
+            key = None
+            for _ in range(8):
+                if l is None:
+                    break
+                d = du.single_def(l)
+                if d is None:
+                    break
+                if d[2] == "call":
+                    cc = d[3]
+                    if cc.short.endswith("::get_meta_value") and len(cc.args) > 1:
+                        kl = op_base(cc.args[1])
+                        kr = du.root(kl) if kl is not None else None
+                        if kr and kr[0] == "call" and kr[1].args:
+                            ag = operand_agg(du, kr[1].args[0])
+                            if ag:
+                                key = ag[1]
+                        break
+                    if cc.is_("Option::unwrap", "Try::branch", "Clone::clone") and cc.args:
+                        l = op_base(cc.args[0])
+                        continue
+                    break
+                rv = d[3]
+                if rv[0] == "use":
+                    l = op_base(rv[1])
+                else:
+                    break
+            if key is None:
+                continue
+            n += 1
+            r.instances += 1
+            r.nontrivial += 1
+            inst, arg = side(c.args[2]), side(c.args[3])
+            want = ("rhs", "lhs") if key.endswith("Rhs") else ("lhs", "rhs")
+            ok = (inst, arg) == want
+            if inst is None or arg is None:
+                r.undecided.append(f"{fn.qual}:{c.line} operands of the @{key} call could not be traced")
+            elif not ok:
+                r.add(Finding("R-DISPATCH-OPERANDS", fn.qual, f"{key}:{inst},{arg}", f"the function stored under "
+                              f"BinaryOp::{key} is called with instance = {inst} operand and argument = {arg} operand "
+                              f"(documented: {want[0]}, {want[1]})", fn.file, c.line))
+            r.sample({"fn": fn.qual, "key": key, "instance": inst, "argument": arg, "line": c.line}, limit=10)
+    r.analysed = {"metamap_operator_calls": n}
+    r.floor("metamap operator calls with a traced key", n, 12)
+    return r
